@@ -177,6 +177,13 @@ func c16Inputs(thorough bool) []c16case {
 	add("asa-raw-two-name-clashes", "ASA", core.Files{Main: asaIntf}, core.Files{Main: groupText("g1", 3) + groupText("g2", 5) +
 		"access-list inside_in extended permit ip object-group g1 object-group g2\naccess-group inside_in in interface inside\n",
 		Raw: groupText("g1", 4) + groupText("g2", 6) + "access-list inside_in extended permit ip object-group g1 any4\naccess-list outside_in extended permit ip object-group g2 any4\naccess-group outside_in in interface outside\n"})
+	// remaining map iterations of the planner: ASA routes with a metric on
+	// two interfaces, IOS with two GDOI crypto maps
+	add("asa-route-metric-two-interfaces", "ASA", core.Files{Main: asaIntf + "route inside 10.1.0.0 255.255.0.0 10.0.0.2 1\nroute outside 10.2.0.0 255.255.0.0 10.0.1.2 1\nroute outside 10.4.0.0 255.255.0.0 10.0.1.2 1\n"},
+		core.Files{Main: "route inside 10.1.0.0 255.255.0.0 10.0.0.2\nroute outside 10.3.0.0 255.255.0.0 10.0.1.2\nroute inside 10.5.0.0 255.255.0.0 10.0.0.3\n"})
+	add("ios-two-gdoi-maps", "IOS", core.Files{Main: "crypto map GDOI-03 10 gdoi\n set group GDOI-03\ncrypto map GDOI-04 10 gdoi\n set group GDOI-04\n" +
+		"interface eth0\n ip address 10.1.2.3 255.255.255.252\n crypto map GDOI-03\ninterface eth1\n ip address 10.1.2.5 255.255.255.252\n crypto map GDOI-04\n"},
+		core.Files{Main: "interface eth0\n ip address 10.1.2.3 255.255.255.252\ninterface eth1\n ip address 10.1.2.5 255.255.255.252\n"})
 	add("linux-struct", "Linux", core.Files{Main: "*filter\n:INPUT DROP\n:a -\n:b -\n:c -\nCOMMIT\n*mangle\n:PREROUTING ACCEPT\nCOMMIT\n*nat\n:PREROUTING ACCEPT\nCOMMIT\n"},
 		core.Files{Main: "*filter\n:INPUT DROP\n:d -\n:e -\nCOMMIT\n*raw\n:PREROUTING ACCEPT\nCOMMIT\n"})
 	// PAN-OS
